@@ -46,7 +46,7 @@ func c18KeyByte(c byte) bool { // what Set accepts in a key value (pathutils.Ind
 // (CheckKeyValue), but deletes and JSON-valued updates only pass IsPathValid, which also admits ':' and '='
 // inside a segment (base64 text, distinguished names, prefixed identities). Key NAMES are YANG identifiers,
 // so a key group reads "[name=" up to the FIRST '=' and the value runs to the closing bracket.
-func c18ValByte(c byte) bool { return c18KeyByte(c) || c == '=' || c == ':' }
+func c18ValByte(c byte) bool { return c18KeyByte(c) || c == '=' || c == ':' || c == '/' || c == '[' }
 
 // c18Parse splits a stored path into elements. It accepts exactly the canonical form the system
 // stores (utils.StrPath): /name[k=v][k2=v2]/..., key names ascending, no escapes.
@@ -351,7 +351,10 @@ var c18KeySets = [][]string{{"id"}, {"name"}, {"id", "name"}, {"k1", "k2"}, {"id
 var c18KeyValues = []string{"1", "10", "1-0", "2", "true", "false", "a", "ab", "a.b", "0", "A", "x_1", "10.0.0.1", "eth0", "eth0.1", "100",
 	// values holding the characters the path syntax itself uses between a key name and its value or between two
 	// names (base64 text, distinguished names, prefixed identities): all accepted by the path validation
-	"YQ==", "YQ=", "cn=a", "cn=b", "a=b=c", "m:id", "-1", "a:b=c"}
+	"YQ==", "YQ=", "cn=a", "cn=b", "a=b=c", "m:id", "-1", "a:b=c",
+	// and the element separator and the opening bracket (interface names, file names: accepted in later keys of a
+	// non-key leaf, in deletes and in JSON-valued updates)
+	"eth1/1", "eth1/10", "rack[7", "[0/1", "a/./b", "a/b"}
 
 func c18GenKids(s c17Src, depth int) []*c18Node {
 	fam := c18Families[s.Intn(len(c18Families), "family")]
